@@ -205,3 +205,117 @@ def run_items(chk, fn, items, procs=None):
         if status in ('proved', 'known', 'violation'):
             chk.case(key=(P.render(it[2]), it[3], it[4]), nontrivial=True)
     return counts, time.time() - t0
+
+
+def count_ext_groups(tokens):
+    n = 0
+    for t in tokens:
+        if t[0] == 'ext':
+            n += 1
+            for a in t[2]:
+                n += count_ext_groups(a)
+    return n
+
+
+@_with_budget
+def translate_item(item):
+    """C08: translate() regexes compile, mean what the matcher's own regexes mean, and carry one capture group per extended group.
+    item = (prop, obligation, els, flags, is_bytes, mode('fnmatch'|'glob'), known)"""
+    import re
+    prop, obligation, els, flags, is_bytes, kind, known = item
+    try:
+        txt = P.render(els)
+        pt = txt.encode('latin-1') if is_bytes else txt
+        api = F if kind == 'fnmatch' else G
+        tflags = api._flag_transform(flags)
+        pos, neg = api.translate(pt, flags=flags)
+        cpos, cneg = W.compile_pattern(pt, tflags)
+        ops = []
+        rec = lang._Rec(known)
+        status = 'proved'
+        sig = dict(pattern=txt, flags=flags, fl=flagnames(flags), mode=kind, bytes=is_bytes)
+        if len(pos) != len(cpos) or len(neg) != len(cneg):
+            rec.violation(dict(sig, obligation=obligation + '.same_number_of_regexes'), f'translate returns {len(pos)}+{len(neg)} regexes, the matcher uses {len(cpos)}+{len(cneg)}',
+                          replay_translate(kind, pt, flags))
+            return 'violation', rec.ops
+        for tr, cp, which in [(a, b, 'include') for a, b in zip(pos, cpos)] + [(a, b, 'exclude') for a, b in zip(neg, cneg)]:
+            try:
+                ctr = re.compile(tr)
+            except re.error as e:
+                rec.violation(dict(sig, obligation=obligation + '.compiles', regex=str(tr)), f'translate({txt!r}, flags={flagnames(flags)}) returned {tr!r} which does not compile: {e}',
+                              replay_translate(kind, pt, flags))
+                status = 'violation'
+                continue
+            a, b = R.Impl(ctr), R.Impl(cp)
+            r = R.equal(a, b)
+            if r is not None:
+                w = R.to_str(r[0], is_bytes)
+                if bool(ctr.fullmatch(w)) != r[1] or bool(cp.fullmatch(w)) != r[2]:
+                    raise lang.CheckerBroken(f'relang disagrees with CPython on {tr!r} or {cp.pattern!r} for {w!r}')
+                rec.violation(dict(sig, obligation=obligation + '.same_language', witness=w, which=which),
+                              f'{kind}.translate({txt!r}, flags={flagnames(flags)}): {which} regex {"matches" if r[1] else "rejects"} {w!r} but the regex the matcher executes '
+                              f'{"matches" if r[2] else "rejects"} it', replay_translate(kind, pt, flags, w))
+                status = 'violation'
+            if which == 'include' and len(pos) == 1 and not neg and mode_from_flags(flags, kind == 'glob').ext:
+                want = count_ext_groups(els)
+                if ctr.groups != want:
+                    rec.violation(dict(sig, obligation=obligation + '.one_capture_group_per_extended_group', groups=ctr.groups, want=want),
+                                  f'{kind}.translate({txt!r}): {ctr.groups} capturing groups for {want} extended groups ({tr!r})', replay_translate(kind, pt, flags))
+                    status = 'violation'
+        rec.obligation(obligation, 'proved' if status == 'proved' else 'refuted', 'relang', 0.0, detail=f'{txt!r} {flags}')
+        return status, rec.ops
+    except lang.CheckerBroken as e:
+        return 'broken', [('broke', (str(e),))]
+    except R.Unsupported as e:
+        return 'open', [('leave_open', (obligation, f'regex outside the engine subset: {e} ({P.render(els)!r})'))]
+    except R.StateLimit as e:
+        return 'open', [('leave_open', (obligation, f'state limit {e} ({P.render(els)!r})'))]
+    except Exception:
+        return 'broken', [('broke', (f'{P.render(els)!r} flags={flags}: ' + traceback.format_exc()[-1500:],))]
+
+
+def replay_translate(kind, pt, flags, w=None):
+    mod = 'fnmatch' if kind == 'fnmatch' else 'glob'
+    call = 'fnmatch.fnmatch' if kind == 'fnmatch' else 'glob.globmatch'
+    return (f"import sys, re; sys.path.insert(0, {REPO!r})\nfrom wcmatch import {mod}\npos, neg = {mod}.translate({pt!r}, flags={flags})\nprint(pos, neg)\n"
+            f"for r in pos + neg:\n    re.compile(r)\n" +
+            (f"name = {w!r}\nvia_regex = any(re.fullmatch(r, name) for r in pos) and not any(re.fullmatch(r, name) for r in neg)\n"
+             f"via_api = {call}(name, {pt!r}, flags={flags})\nprint(via_regex, via_api); sys.exit(0 if via_regex == via_api else 1)\n" if w is not None else "sys.exit(1)\n"))
+
+
+@_with_budget
+def bytes_item(item):
+    """C18: Lang(translate(p.encode())) == Lang(translate(p)) restricted to Latin-1, for ASCII patterns. item as translate_item."""
+    prop, obligation, els, flags, _, kind, known = item
+    try:
+        txt = P.render(els)
+        api = F if kind == 'fnmatch' else G
+        ps, ns = api.translate(txt, flags=flags)
+        pb, nb = api.translate(txt.encode('latin-1'), flags=flags)
+        rec = lang._Rec(known)
+        sig = dict(pattern=txt, flags=flags, fl=flagnames(flags), mode=kind)
+        status = 'proved'
+        if [x.decode('latin-1') for x in pb] != ps or [x.decode('latin-1') for x in nb] != ns:
+            # translate returns the encoded regexes (statement): POSIX classes are the only place where the texts may differ (0x10ffff vs 0xff tables)
+            pass
+        if len(ps) != len(pb) or len(ns) != len(nb):
+            rec.violation(dict(sig, obligation=obligation + '.same_number_of_regexes'), f'str: {len(ps)}+{len(ns)} regexes, bytes: {len(pb)}+{len(nb)}', None)
+            return 'violation', rec.ops
+        for rs, rb, which in [(a, b, 'include') for a, b in zip(ps, pb)] + [(a, b, 'exclude') for a, b in zip(ns, nb)]:
+            r = R.equal(R.Impl(rb), R.Impl(rs), maxc=255)
+            if r is not None:
+                w = bytes(r[0])
+                rec.violation(dict(sig, obligation=obligation + '.same_language_on_latin1', witness=w, which=which),
+                              f'{kind}.translate({txt!r}, flags={flagnames(flags)}): bytes regex {"matches" if r[1] else "rejects"} {w!r}, the str regex '
+                              f'{"matches" if r[2] else "rejects"} {w.decode("latin-1")!r}',
+                              f"import sys; sys.path.insert(0, {REPO!r})\nfrom wcmatch import fnmatch, glob\nm = {'fnmatch.fnmatch' if kind == 'fnmatch' else 'glob.globmatch'}\n"
+                              f"a = m({w!r}, {txt.encode('latin-1')!r}, flags={flags}); b = m({w.decode('latin-1')!r}, {txt!r}, flags={flags})\nprint(a, b); sys.exit(0 if a == b else 1)\n")
+                status = 'violation'
+        rec.obligation(obligation, 'proved' if status == 'proved' else 'refuted', 'relang', 0.0, detail=f'{txt!r} {flags}')
+        return status, rec.ops
+    except R.Unsupported as e:
+        return 'open', [('leave_open', (obligation, f'regex outside the engine subset: {e}'))]
+    except R.StateLimit as e:
+        return 'open', [('leave_open', (obligation, f'state limit {e}'))]
+    except Exception:
+        return 'broken', [('broke', (f'{P.render(els)!r} flags={flags}: ' + traceback.format_exc()[-1500:],))]
